@@ -17,11 +17,18 @@ pub enum Act {
     TakeEffect,
 }
 
+pub open spec fn is_take(a: Act) -> bool { a is TakeEvent || a is TakeEffect }
+
 pub tracked struct NW {
     pub ghost acts: Seq<Act>,
 }
 
 pub enum Poll<T> { Ready(T), Pending }
+// ASSUMED (core; vstd already specifies Result::map): Result::or - `or` takes its argument BY VALUE (evaluated before the call)
+pub assume_specification<T, E, F> [core::result::Result::<T, E>::or] (r: core::result::Result<T, E>, res: core::result::Result<T, F>) -> (out: core::result::Result<T, F>)
+    ensures
+        r matches Ok(t) ==> out == Ok::<T, F>(t),
+        r is Err ==> out == res;
 #[verifier::external_body]
 pub struct Waker { _p: u8 }
 #[verifier::external_body]
@@ -90,7 +97,7 @@ impl<Effect, Event> Command<Effect, Event> {
         ensures final(w).acts == old(w).acts.push(Act::RunTasks), *final(self) == *old(self),
     { unimplemented!() }
 
-//@extract id=Command::poll_next::order file=crux_core/src/command/stream.rs within="impl<Effect, Event> Stream for Command<Effect, Event>" item="fn poll_next" props=C05
+//@extract id=Command::poll_next::order file=crux_core/src/command/stream.rs within="impl<Effect, Event> Stream for Command<Effect, Event>" item="fn poll_next" props=C01+C04+C05
 //@expect fn poll_next(mut self: Pin<&mut Self>, cx: &mut Context<'_>) -> Poll<Option<Self::Item>>
 //@sig pub fn poll_next(&mut self, Tracked(w): Tracked<&mut NW>, cx: &mut Context) -> (r: Poll<Option<CommandOutput<Effect, Event>>>)
 //@contract
@@ -101,10 +108,13 @@ impl<Effect, Event> Command<Effect, Event> {
             final(w).acts.len() > old(w).acts.len() && final(w).acts[old(w).acts.len() as int] is Register, // [C05/poll_next/the-hosts-waker-is-registered-before-anything-else-happens-in-the-poll]
             final(w).acts.len() > old(w).acts.len() + 1 && final(w).acts[old(w).acts.len() as int + 1] is RunTasks, // [C05/poll_next/the-commands-tasks-run-in-every-poll-right-after-the-registration]
             forall|i: int| old(w).acts.len() < i < final(w).acts.len() ==> !(#[trigger] final(w).acts[i] is Register), // [C05/poll_next/the-waker-is-registered-once-per-poll]
+            forall|i: int, j: int| old(w).acts.len() <= i < final(w).acts.len() && old(w).acts.len() <= j < final(w).acts.len() && is_take(#[trigger] final(w).acts[i]) && is_take(#[trigger] final(w).acts[j]) ==> i == j, // [C01+C04+C05/poll_next/at-most-one-item-leaves-the-commands-queues-per-poll]
+            (r is Pending || r matches Poll::Ready(None)) ==> forall|i: int| old(w).acts.len() <= i < final(w).acts.len() ==> !is_take(#[trigger] final(w).acts[i]), // [C01+C04+C05/poll_next/nothing-is-taken-from-the-queues-unless-it-is-yielded]
 //@rule X12.pin-erasure * s/self\.deref_mut\(\)\.run_until_settled\(\)/self.run_until_settled(Tracked(w))/
 //@rule X6.world * s/\.waker\.register\(/.waker.register(Tracked(w), /
 //@rule X6.world * s/\.try_recv\(\)/.try_recv(Tracked(w))/
 //@rule X6.world * s/self\.is_done\(\)/self.is_done(Tracked(w))/
+//@rule X8b.eta * s/\.map\(CommandOutput::(Event|Effect)\)/.map(|v| -> (o: CommandOutput<Effect, Event>) ensures o == CommandOutput::<Effect, Event>::\1(v) { CommandOutput::\1(v) })/
 //@end
 }
 
